@@ -20,7 +20,7 @@ VARIABLES tid, l, c, s, pend, gh, bad
 vars == <<tid, l, c, s, pend, gh, bad>>
 Tr == Batch[tid]
 Ev == Tr.ev
-SRV == 212
+SRV == Tr.srv
 Init == /\ tid \in 1..Len(Batch) /\ l = 1
         /\ c = ClIdle /\ s = SvIdle
         /\ pend = [n \in {"C", "S", "I"} |-> <<>>]
@@ -51,7 +51,7 @@ Strip(q) == SelectSeq(q, LAMBDA h : ~IsOpt(h))
 
 Apply(e) ==
     CASE e.ev = "api" /\ e.op \in {"dm14_read", "dm14_write"} ->
-           IF c.st # "idle" THEN Fail("client call while another one is running")
+           IF ~ClFree(c) THEN Fail("client call while another one is running")
            ELSE LET op == [cmd |-> IF e.op = "dm14_read" THEN CMD_READ ELSE CMD_WRITE, direct |-> e.direct, ptr |-> Ptr(e),
                            count |-> e.count, bytes |-> IF e.op = "dm14_write" THEN e.bytes ELSE <<>>, alg |-> Tr.sec, k |-> Tr.client_k]
                     r == ClStart(op, SRV)
@@ -123,7 +123,7 @@ Apply(e) ==
                 ELSE IF r.raises /\ r.code # None /\ e.code # r.code THEN Fail("exception does not name the error code the server sent")
                 ELSE IF r.raises /\ c.st = "w_first" /\ e.t # gh.start + gh.timeout THEN Fail("no-response exception not at the caller's time-out")
                 ELSE IF ~r.raises /\ c.st = "ok" /\ e.ret_bytes # r.data THEN Fail("read() did not return exactly the bytes the serving application supplied")
-                ELSE St(ClIdle, s, pend, [gh EXCEPT !.lastok = (c.st = "ok")])
+                ELSE St(ClAfterReturn(c), s, pend, [gh EXCEPT !.lastok = (c.st = "ok")])
       [] e.ev = "abs" ->
            IF e.node \notin {"C", "S"} THEN Keep
            ELSE St(c, s, pend, [gh EXCEPT !.subs[e.node] = e.subs, !.abs[e.node] = [facade |-> e.facade, query |-> e.query, server |-> e.server],
